@@ -34,6 +34,12 @@ type Case struct {
 	SACKBlocks bool           `json:"sack_blocks"`  // duplicate ACKs carry SACK blocks for what was received out of order
 	SilentAt   int            `json:"silent_at"`    // after this many segments were received in order the peer goes silent (-1: never)
 	Timeouts   int            `json:"timeouts"`     // number of timeouts to watch while silent
+	// SlowAcks > 0 (bursts of at most 10 segments, nothing lost): the peer lets the
+	// whole burst arrive, then acknowledges SlowAcks segments one at a time,
+	// SlowAckMs apart, and goes silent: the sender has sent nothing for a long
+	// time when its timer finally fires
+	SlowAcks  int `json:"slow_acks,omitempty"`
+	SlowAckMs int `json:"slow_ack_ms,omitempty"`
 }
 
 type ackRec struct {
@@ -153,6 +159,7 @@ func runOnce(c Case) *evid.Failure {
 	var fail *evid.Failure
 	deadline := time.Now().Add(25 * time.Second)
 	firstAckSent := false
+	slowDone := false
 	for time.Now().Before(deadline) && fail == nil {
 		wait := 400 * time.Millisecond
 		if silent {
@@ -292,6 +299,51 @@ func runOnce(c Case) *evid.Failure {
 		have[idx] = true
 		for edge < nseg && have[edge] {
 			edge++
+		}
+		if c.SlowAcks > 0 && !slowDone && nseg <= 10 && len(c.Lost) == 0 {
+			if edge < nseg {
+				continue // no acknowledgement yet: let the whole burst arrive
+			}
+			slowDone = true
+			k := c.SlowAcks
+			if k > nseg-2 {
+				k = nseg - 2
+			}
+			if k < 1 {
+				// too short a burst for this variant: acknowledge and go on as usual
+				sendAck(false)
+				firstAckSent = true
+				continue
+			}
+			for j := 1; j <= k; j++ {
+				time.Sleep(time.Duration(c.SlowAckMs) * time.Millisecond)
+				edge = j
+				sendAck(false)
+				firstAckSent = true
+			}
+			// what the stack sent meanwhile (a timeout, if the spacing exceeds its timer) is not judged
+			env.Tap.Quiesce(5*time.Millisecond, 200*time.Millisecond)
+			for {
+				f2, ok2 := p.Next(0)
+				if !ok2 {
+					break
+				}
+				if len(f2.Pkt.Payload) > 0 {
+					o2 := f2.Pkt.Seq - (p.IRS + 1)
+					seen[o2]++
+					emits = append(emits, emit{t: f2.T, off: o2, end: o2 + uint32(len(f2.Pkt.Payload)), first: false})
+					anyRtx = true
+				}
+			}
+			for i := k; i < len(have); i++ {
+				have[i] = false // not acknowledged: they will come again
+			}
+			evid.Label("slow-acks-then-silence")
+			silent, silenceStart, timeoutsSeen = true, time.Now(), 0
+			if c.Timeouts < 2 {
+				c.Timeouts = 2
+			}
+			continue
 		}
 		if !silenceDone && c.SilentAt >= 0 && edge >= c.SilentAt && edge < nseg {
 			// acknowledge what we have, wait until the stack has processed everything we sent and is quiet, then stay silent
@@ -458,8 +510,15 @@ func genCase(rt *rapid.T) Case {
 	c.WndJitter = rapid.IntRange(0, 4).Draw(rt, "wnd_jitter") == 0
 	c.SACKBlocks = rapid.Bool().Draw(rt, "sack_blocks")
 	c.DupData = rapid.IntRange(0, 4).Draw(rt, "dup_data") == 0
-	mode := rapid.SampledFrom([]string{"loss", "loss", "silence", "silence", "both"}).Draw(rt, "mode")
+	mode := rapid.SampledFrom([]string{"loss", "loss", "silence", "silence", "both", "slowacks"}).Draw(rt, "mode")
 	c.SilentAt = -1
+	if mode == "slowacks" {
+		c.NSeg = rapid.IntRange(4, 10).Draw(rt, "slow_nseg")
+		c.SlowAcks = rapid.IntRange(1, c.NSeg-2).Draw(rt, "slow_acks")
+		c.SlowAckMs = rapid.SampledFrom([]int{60, 120, 160, 190}).Draw(rt, "slow_ack_ms")
+		c.Timeouts = 2
+		return c
+	}
 	if mode != "silence" {
 		n := rapid.IntRange(1, 2).Draw(rt, "nlost")
 		for i := 0; i < n; i++ {
